@@ -187,3 +187,146 @@ func TestSelfDialBound(t *testing.T) {
 		t.Fatalf("hang on a shared address with a dial timeout refused: %v", err)
 	}
 }
+
+// TestSelfFreshDials: the clause "a retry is a new call of the dial function" of
+// the real part on hand-made traces.
+func TestSelfFreshDials(t *testing.T) {
+	sc := &Scenario{Real: true, BaseMs: 1000, MaxMs: 3000, Targets: []Target{{Addr: 0, Dialer: 1}, {Addr: 0, Dialer: unregisteredDialer}},
+		NamedDials: [][][]DialStep{{{{Kind: "refused"}}}}}
+	s := time.Second
+	trace := []Ev{
+		{Tgt: "t0", Kind: kDialStart, N: 0, Info: addrOf(0)},
+		{Tgt: "t0", Kind: kDialResult, N: 0, Err: "refused", Info: "real"},
+		{Tgt: "t0", Kind: kDialStart, N: 1, At: 1 * s, Info: addrOf(0)},
+		{Tgt: "t0", Kind: kDialResult, N: 1, At: 1 * s, Err: "refused", Info: "real"},
+		{Tgt: "", Kind: kEnd, N: -1, At: 4 * s},
+	}
+	first := DialEv{Dialer: 1, Addr: 0, K: 0, Kind: "refused", By: "t0", Ended: true, Outcome: "refused"}
+	second := DialEv{Dialer: 1, Addr: 0, K: 1, Kind: "refused", By: "t0", Start: 1 * s, End: 1 * s, Ended: true, Outcome: "refused"}
+	if err := checkFreshDials(sc, trace, []DialEv{first, second}); err != nil {
+		t.Fatalf("two attempts, two dials refused: %v", err)
+	}
+	if err := checkFreshDials(sc, trace, []DialEv{first}); err == nil || classOf(err) != "retry-without-dial" {
+		t.Fatalf("a second answer without a second dial accepted: %v", err)
+	}
+	// a dial that SUCCEEDED while the call was outstanding does not explain an error answer
+	okDial := second
+	okDial.Outcome = "ok"
+	if err := checkFreshDials(sc, trace, []DialEv{first, okDial}); err == nil {
+		t.Fatalf("an error answer next to a successful dial accepted")
+	}
+	// a dial to another address does not count
+	other := second
+	other.Addr = 1
+	if err := checkFreshDials(sc, trace, []DialEv{first, other}); err == nil {
+		t.Fatalf("a dial to another address accepted as the retry")
+	}
+	// the context of the call had ended / the dialer is not registered: no dial function needed
+	ctxDone := append([]Ev{}, trace...)
+	ctxDone[3].Info = "real ctx-done"
+	if err := checkFreshDials(sc, ctxDone, []DialEv{first}); err != nil {
+		t.Fatalf("answer for an ended context refused: %v", err)
+	}
+	noDialer := append([]Ev{}, trace...)
+	noDialer[3].Err = "no such dialer: nosuch"
+	if err := checkFreshDials(sc, noDialer, []DialEv{first}); err != nil {
+		t.Fatalf("no-such-dialer answer on an address an unregistered dialer is configured for refused: %v", err)
+	}
+	sc1 := *sc
+	sc1.Targets = sc.Targets[:1]
+	if err := checkFreshDials(&sc1, noDialer, []DialEv{first}); err == nil {
+		t.Fatalf("no-such-dialer answer accepted although every configured dialer is registered")
+	}
+}
+
+// TestSelfJudgeConfig: the judge's clauses of the configuration dimension
+// (credentials lookups begin attempts, next hops of one attempt, Add starts an attempt).
+func TestSelfJudgeConfig(t *testing.T) {
+	s := time.Second
+	renumber := func(tr []Ev) []Ev {
+		out := append([]Ev{}, tr...)
+		for i := range out {
+			out[i].I = i
+		}
+		return out
+	}
+	add := []Ev{{Tgt: "t0", Kind: kAddCall, N: -1, Info: "fresh"}, {Tgt: "t0", Kind: kAddRet, N: -1, Info: "fresh"}}
+	end := func(at time.Duration) []Ev {
+		return []Ev{
+			{Tgt: "t0", Kind: kRemoveCall, N: -1, At: at, Info: "final"},
+			{Tgt: "t0", Kind: kRemoveRet, N: -1, At: at, Info: "final"},
+			{Tgt: "t0", Kind: kSettled, N: -1, At: at, Info: kRemoveCall + " final"},
+			{Tgt: "", Kind: kEnd, N: -1, At: at + 30*s},
+		}
+	}
+	cat := func(parts ...[]Ev) []Ev {
+		var out []Ev
+		for _, p := range parts {
+			out = append(out, p...)
+		}
+		return renumber(out)
+	}
+	check := func(name string, sc *Scenario, tr []Ev, class string) {
+		t.Helper()
+		_, err := judge(sc, tr)
+		switch {
+		case class == "" && err != nil:
+			t.Errorf("%s: refused: %v", name, err)
+		case class != "" && err == nil:
+			t.Errorf("%s: accepted", name)
+		case class != "" && classOf(err) != class:
+			t.Errorf("%s: class %s, want %s", name, classOf(err), class)
+		}
+	}
+	// credentials lookups
+	cred := &Scenario{BaseMs: 1000, MaxMs: 3000, Targets: []Target{{Addr: 0, Cred: "id", CredSteps: []string{"fail"}}}}
+	lookup := func(at time.Duration, n int, err string) Ev {
+		return Ev{Tgt: "t0", Kind: kCred, N: n, At: at, Err: err}
+	}
+	dial := func(at time.Duration, n int, addr, err string) []Ev {
+		return []Ev{{Tgt: "t0", Kind: kDialStart, N: n, At: at, Info: addr}, {Tgt: "t0", Kind: kDialResult, N: n, At: at, Err: err, Info: "real"}}
+	}
+	check("lookup fails, retried after 1 s", cred, cat(add, []Ev{lookup(0, 0, "x"), lookup(1*s, 1, "")}, dial(1*s, 0, addrOf(0), "refused"), end(2*s)), "")
+	check("lookup fails, retried at once", cred, cat(add, []Ev{lookup(0, 0, "x"), lookup(0, 1, "")}, dial(0, 0, addrOf(0), "refused"), end(1*s)), "retry-without-backoff")
+	check("lookup fails, never retried", cred, cat(add, []Ev{lookup(0, 0, "x")}, end(10*s)), "no-retry")
+	check("dial right after its lookup is no retry", cred, cat(add, []Ev{lookup(0, 0, "")}, dial(0, 0, addrOf(0), "refused"), []Ev{lookup(1*s, 1, "")}, dial(1*s, 1, addrOf(0), "refused"), end(2*s)), "")
+	// next hops
+	hops := &Scenario{Real: true, BaseMs: 1000, MaxMs: 3000, Targets: []Target{{Addr: 0, More: []AddrLine{{Addr: 1}}}}}
+	check("second next hop at the instant the first failed", hops, cat(add, dial(0, 0, addrOf(1), "refused"), dial(0, 1, addrOf(0), "refused"), end(1*s)), "")
+	check("the same next hop again at once", hops, cat(add, dial(0, 0, addrOf(1), "refused"), dial(0, 1, addrOf(1), "refused"), end(1*s)), "retry-without-backoff")
+	check("third call at once", hops, cat(add, dial(0, 0, addrOf(1), "refused"), dial(0, 1, addrOf(0), "refused"), dial(0, 2, addrOf(1), "refused"), end(1*s)), "retry-without-backoff")
+	one := &Scenario{Real: true, BaseMs: 1000, MaxMs: 3000, Targets: []Target{{Addr: 0, More: []AddrLine{{Addr: 0, Hops: 1}}}}}
+	check("one next hop: a second call at once is a retry", one, cat(add, dial(0, 0, addrOf(0), "refused"), dial(0, 1, addrOf(1), "refused"), end(1*s)), "retry-without-backoff")
+	// Add starts an attempt
+	plain := &Scenario{BaseMs: 1000, MaxMs: 3000, Targets: []Target{{Addr: 0}}}
+	check("added, never attempted", plain, cat(add, end(10*s)), "no-attempt-after-add")
+	check("added and removed soon", plain, cat(add, end(2*s)), "")
+	broken := &Scenario{BaseMs: 1000, MaxMs: 3000, Targets: []Target{{Addr: 0, Cred: "broken"}}}
+	check("unusable credentials: attempts are invisible", broken, cat(add, end(10*s)), "")
+}
+
+// TestSelfRealRoundTrip: a generated scenario of the real part survives the
+// replay file (JSON) and runs to the same verdict.
+func TestSelfRealRoundTrip(t *testing.T) {
+	rapid.Check(t, func(rt *rapid.T) {
+		sc := genRealScenario(rt)
+		raw, err := json.Marshal(sc)
+		if err != nil {
+			rt.Fatalf("%v", err)
+		}
+		var back Scenario
+		if err := json.Unmarshal(raw, &back); err != nil {
+			rt.Fatalf("%v", err)
+		}
+		if err := back.validate(); err != nil {
+			rt.Fatalf("replayed scenario invalid: %v\n%s", err, raw)
+		}
+		again, _ := json.Marshal(&back)
+		if string(again) != string(raw) {
+			rt.Fatalf("scenario changed in the round trip:\n%s\n%s", raw, again)
+		}
+		if _, err := runScenario(t, &back); err != nil {
+			rt.Fatalf("%v", err)
+		}
+	})
+}
